@@ -254,7 +254,10 @@ pub fn generate_sel(seed: u64, tier: &str, sink: &mut Sink, only_refusal_bodies:
     for cut in 0..full.len() {
         run(200, full[..cut].to_vec(), "truncated", vec![], cut % 4, (cut / 4) % 5, cut % 2 == 0, &mut rng, sink);
     }
-    for g in [&b"\r\n\r\n"[..], b"HTTP/1.1 abc\r\n\r\n", b"SSH-2.0-OpenSSH\r\n", b"HTTP/1.1 20\r\n\r\n", b"\x16\x03\x01\x00\x05hello", b"HTTP/1.1 200\nno-colon-line\r\n\r\n"] {
+    for g in [&b"\r\n\r\n"[..], b"HTTP/1.1 abc\r\n\r\n", b"SSH-2.0-OpenSSH\r\n", b"HTTP/1.1 20\r\n\r\n", b"\x16\x03\x01\x00\x05hello", b"HTTP/1.1 200\nno-colon-line\r\n\r\n",
+        // a status is three digits: a number spelled otherwise is no agreement of the proxy (seed C12-seed13: the
+        // token parsed as an integer)
+        b"HTTP/1.1 +200 OK\r\n\r\n", b"HTTP/1.1 0200 OK\r\n\r\n", b"HTTP/1.1 0000000204 OK\r\n\r\n", b"HTTP/1.1 2000 OK\r\n\r\n", b"HTTP/1.1 +407 No\r\n\r\n", b"HTTP/1.1 2e2 OK\r\n\r\n", b"HTTP/1.1 0x0c8 OK\r\n\r\n"] {
         run(200, g.to_vec(), "garbage", vec![], 0, 0, true, &mut rng, sink);
     }
     // refusal replies that declare a large Content-Length
